@@ -319,7 +319,8 @@ func (x *Exec) execFrom(st *State, b *ssa.BasicBlock, idx int) {
 			fr.ret(st, res)
 			return
 		case *ssa.Panic:
-			if st.top().depth == 0 || true {
+			if x.c.Config["panics"] != "allowed" {
+				// (config panics allowed: an explicit panic is a loud refusal and simply ends the path)
 				x.addObl(st, "safe", "panic", TFalse, x.posOf(v), "explicit panic must be unreachable")
 			}
 			return
@@ -633,7 +634,16 @@ func (x *Exec) unop(st *State, v *ssa.UnOp) Value {
 		}
 		if p.global != nil {
 			if t := x.P.rtypeOf[p.global]; t != nil {
-				return x.rtypeValue(st, t)
+				if x.P.rtypeStruct[p.global] {
+					if len(p.Path) == 1 {
+						return x.rtypeValue(st, t)
+					}
+					if len(p.Path) == 0 {
+						return StructV{Fields: []Value{x.rtypeValue(st, t)}, T: p.Root.Underlying().(*types.Struct)}
+					}
+				} else {
+					return x.rtypeValue(st, t)
+				}
 			}
 		}
 		if p.castElem != nil {
@@ -747,7 +757,33 @@ func (x *Exec) binop(st *State, op token.Token, av, bv Value, xt types.Type, rt 
 		}
 		return Scalar{Not(eq)}
 	case StructV:
-		x.unsupportedf("struct comparison at %s", pos)
+		// field-wise comparison, for structs made of interfaces (identity of dynamic type and payload
+		// reference, as for the interface case above), ints, bools and flag bytes only
+		b, ok := bv.(StructV)
+		if !ok || len(a.Fields) != len(b.Fields) {
+			x.unsupportedf("struct comparison at %s", pos)
+		}
+		var cs []Term
+		for i := range a.Fields {
+			switch fa := a.Fields[i].(type) {
+			case IfaceV:
+				fb := b.Fields[i].(IfaceV)
+				cs = append(cs, Eq(fa.Tag, fb.Tag), Eq(fa.Val, fb.Val))
+			case Scalar:
+				fb := b.Fields[i].(Scalar)
+				if fa.T.Sort != SInt && fa.T.Sort != SBool && !strings.HasPrefix(fa.T.Sort, "(_ BitVec") {
+					x.unsupportedf("struct comparison over %s at %s", fa.T.Sort, pos)
+				}
+				cs = append(cs, Eq(fa.T, fb.T))
+			default:
+				x.unsupportedf("struct comparison at %s", pos)
+			}
+		}
+		eq := And(cs...)
+		if op == token.EQL {
+			return Scalar{eq}
+		}
+		return Scalar{Not(eq)}
 	}
 	a := av.(Scalar).T
 	var b Term
